@@ -101,7 +101,8 @@ def impl(fn, args, labels):
                     if a.domain != b.domain or a.locus != b.locus:
                         return [1, 97]
                     ids.by_id[id(b.domain)] = ids.comp(a)
-            return [0] + enc_modules(reloaded, ids.comp)
+            # the original modules followed by the reloaded ones ("rebuilt from its saved form is identical")
+            return [0] + enc_modules(modules, ids.comp) + enc_modules(reloaded, ids.comp)
         if fn == 3:
             prev_specs, cur_specs, same = args
             ids = Ids()
@@ -137,6 +138,69 @@ def impl(fn, args, labels):
     except Exception as exc:  # pylint: disable=broad-except
         return [1, err_code(exc)]
     raise ValueError(fn)
+
+
+SPEC_OFFSET = 10     # run_C14 fn 11/12/13: the decidable specification on (payload ++ implementation output)
+
+
+def decode_domains(flat, labels):
+    """ readable form of the domain lists inside a flat case """
+    out, pos = [], 2
+    for _ in range(2 if flat[1] % SPEC_OFFSET == 3 else 1):
+        n = flat[pos]
+        pos += 1
+        out.append([(labels[flat[pos + 4 * i]], SUBTYPES.get(flat[pos + 4 * i + 1]), flat[pos + 4 * i + 3])
+                    for i in range(n)])
+        pos += 4 * n
+    return out
+
+
+FINDING_CLASS = "more_than_two_carrier_proteins"     # spec verdict [2]
+WITNESS = ["PKS_KS", "ACP", "ACP", "LPG_synthase_C", "Beta_elim_lyase", "ACP", "LPG_synthase_C", "Beta_elim_lyase"]
+
+
+def spec_pass(chk, cases, impl_outs, model_outs, describe, witness_index=None):
+    """ the specification (partition, layout rules, slots/flags as functions of the components, merge and
+        reload clauses - Model.v spec_fn1/2/3) is evaluated on EVERY implementation output; a violated
+        clause is reported with the failing input.  Verdict [2] = only the clause "no more than two carrier
+        proteins" fails: suppressed only while that class is recorded as known AND the implementation still
+        behaves exactly as the (faithful) model on the case """
+    spec_cases = [[c[0], c[1] + SPEC_OFFSET] + c[2:] + o for c, o in zip(cases, impl_outs)]
+    verdicts = common.run_driver(spec_cases)
+    chk.extra["spec_evaluated_on_implementation_outputs"] = len(verdicts)
+    listed = [f for f in common.load_known_findings(chk.prop)
+              if f.get("class") == FINDING_CLASS and f.get("status") == "known"]
+    bad = []
+    in_class = 0
+    for i, verdict in enumerate(verdicts):
+        if verdict == [1]:
+            continue
+        if verdict == [2] and listed and impl_outs[i] == model_outs[i]:
+            in_class += 1
+            continue
+        bad.append(i)
+    chk.extra["spec_violations"] = len(bad)
+    chk.extra["cases_in_known_finding_class_" + FINDING_CLASS] = in_class
+    if listed and witness_index is not None and verdicts[witness_index] == [2] \
+            and impl_outs[witness_index] == model_outs[witness_index]:
+        chk.known(f"class={FINDING_CLASS} {listed[0]['what_fails']}")
+    if not bad:
+        return
+    bad.sort(key=lambda i: len(cases[i]))
+    first = bad[0]
+    replay = {"theorem_or_correspondence": "specification on implementation output (Model.v spec_fn%d)" % cases[first][1],
+              "function": cases[first][1], "flat": cases[first], "implementation": impl_outs[first],
+              "model": model_outs[first], "input": describe(cases[first]),
+              "spec_verdict_on_implementation_output": verdicts[first], "violating_cases": len(bad)}
+    if verdicts[first] not in ([0], [2]):
+        chk.violation("broken-correspondence", "implementation output could not be decoded by the specification", replay)
+    else:
+        what = {1: "build_modules_for_cds output violates partition/layout rules",
+                2: "module rebuilt from its saved form differs (or build output violates the rules)",
+                3: "combine_modules output violates the merge/layout/reload rules"}[cases[first][1]]
+        if verdicts[first] == [2]:
+            what += " (more than two carrier proteins in one module)"
+        chk.violation("counterexample", what, replay)
 
 
 def enc_specs(specs):
@@ -203,6 +267,11 @@ class Gen:
             ["PKS_KS", "ACP", "ACP", "LPG_synthase_C", "Beta_elim_lyase"], ["PKS_KS"], ["ACP", "Thioesterase"], ["PKS_KR"],
             ["PKS_KS", "Trans-AT_docking", "ACP"], ["CAL_domain", "ACP"], ["PKS_AT", "ACP", "PKS_KS", "PKS_AT"],
             ["Condensation_Starter", "AMP-binding", "nMT", "PCP", "Thioesterase", "PKS_KR"],
+            ["ACP", "PKS_KR"], ["PCP", "Epimerization", "Condensation_LCL"], ["Condensation_LCL"], ["PKS_KS", "PKS_AT"],
+            ["ACP", "ACP", "LPG_synthase_C", "Beta_elim_lyase"], ["ACP", "LPG_synthase_C", "Beta_elim_lyase"],
+            ["PKS_KS", "PKS_AT", "ACP", "ACP", "LPG_synthase_C", "Beta_elim_lyase", "Thioesterase"],
+            ["PKS_KS", "ACP", "ACP", "LPG_synthase_C", "NRPS-COM_Nterm", "Beta_elim_lyase"],
+            ["PKS_KS", "ACP", "ACP", "LPG_synthase_C"], ["Trans-AT_docking", "ACP", "PKS_KR", "TIGR01720"],
         ])
         specs = []
         start = 0
@@ -213,7 +282,8 @@ class Gen:
         return specs
 
 
-RULE = ("random domain sequences over all labels of the generated class tables (weighted to assembly-line labels, KS subtypes, "
+RULE = ("every implementation output is also judged by the decidable specification of Model.v (spec_fn1/2/3); "
+        "random domain sequences over all labels of the generated class tables (weighted to assembly-line labels, KS subtypes, "
         "ties and disorder in query_start), single genes (build, build+reload) and adjacent gene pairs (combine_modules, both "
         "strand relations); non-trivial = at least two modules or a merge attempt with non-empty genes; distinct by flat encoding")
 
@@ -228,7 +298,11 @@ def run(chk):
     ix = gen.index
     # regression corpus: witness of the repaired combine_modules defect (known_findings.json F22)
     corpus = [(3, ([(ix["PKS_KS"], 1, 0, 10)],
-                   [(ix["ACP"], 0, 1, 10), (ix["Thioesterase"], 0, 2, 30), (ix["PKS_KR"], 0, 3, 50)], True))]
+                   [(ix["ACP"], 0, 1, 10), (ix["Thioesterase"], 0, 2, 30), (ix["PKS_KR"], 0, 3, 50)], True)),
+              # witness of the recorded finding: three carrier proteins in one module
+              (2, ([(ix[name], 0, k, 10 * (k + 1)) for k, name in enumerate(WITNESS)],)),
+              (3, ([(ix[name], 0, k, 10 * (k + 1)) for k, name in enumerate(WITNESS[:3])],
+                   [(ix[name], 0, 3 + k, 10 * (k + 1)) for k, name in enumerate(WITNESS[3:])], True))]
     for i in range(total):
         r = chk.rng.random()
         if i < len(corpus):
@@ -261,8 +335,10 @@ def run(chk):
         chk.note_case(flat, nontrivial, {"function": fn, "domains": [[(labels[s[0]], SUBTYPES[s[1]], s[3]) for s in a]
                                                                     for a in args if isinstance(a, list)],
                                          "implementation": out})
-    model_outs = common.correspondence(chk, cases, impl_outs,
-                                       describe=lambda flat: {"function": flat[1], "payload": flat[2:]})
+    describe = lambda flat: {"function": flat[1], "payload": flat[2:],
+                             "domains": decode_domains(flat, labels)}
+    model_outs = common.correspondence(chk, cases, impl_outs, spec_fn_offset=SPEC_OFFSET, describe=describe)
+    spec_pass(chk, cases, impl_outs, model_outs, describe, witness_index=1)
     chk.crosscheck_vm(cases, model_outs)
     return chk.finish(RULE)
 
